@@ -264,3 +264,63 @@ def arm_io_fault(ctx, kind, index, err=28):
     from sim import seams
     seams.SHIM.arm(kind, seams.SHIM.count() + index, err)
     return None
+
+
+# ------------------------------------------------------------ compound ops
+
+def _inline_scatterer(ctx, spec):
+    if isinstance(spec, dict) and ('ref' in spec or 'h' in spec):
+        return val(ctx, spec)
+    from sim.ops import REGISTRY
+    return REGISTRY[spec['op']](ctx, **spec['args'])
+
+
+def _inline_theory(ctx, spec):
+    if spec is None or isinstance(spec, str):
+        return theory_arg(ctx, spec)
+    if 'ref' in spec or 'h' in spec:
+        return val(ctx, spec)
+    return make_theory(ctx, spec['kind'], spec.get('options'),
+                       spec.get('inner'))
+
+
+def _inline_detector(ctx, spec):
+    if isinstance(spec, dict) and ('ref' in spec or 'h' in spec):
+        return val(ctx, spec)
+    from sim.ops import REGISTRY
+    return REGISTRY[spec['op']](ctx, **spec['args'])
+
+
+def _one_calc(ctx, c):
+    import holopy.scattering as hs
+    det = _inline_detector(ctx, c['det'])
+    sc = _inline_scatterer(ctx, c['sc'])
+    th = _inline_theory(ctx, c.get('th', 'auto'))
+    kw = optics_kwargs(ctx, c.get('optics'))
+    kw.pop('noise_sd', None)
+    kind = c['kind']
+    if kind == 'holo':
+        if c.get('scaling') is not None:
+            kw['scaling'] = c['scaling']
+        return hs.calc_holo(det, sc, theory=th, **kw)
+    if kind == 'field':
+        return hs.calc_field(det, sc, theory=th, **kw)
+    if kind == 'intensity':
+        return hs.calc_intensity(det, sc, theory=th, **kw)
+    if kind == 'scat_matrix':
+        kw.pop('illum_polarization', None)
+        return hs.calc_scat_matrix(det, sc, theory=th, **kw)
+    raise ValueError(kind)
+
+
+@op('calc_multi')
+def calc_multi(ctx, calcs):
+    """Several self-contained calculations in one operation (atomic under
+    minimisation); each outcome is reported separately."""
+    out = []
+    for c in calcs:
+        try:
+            out.append({'ok': _one_calc(ctx, c)})
+        except Exception as e:
+            out.append({'exc': type(e).__name__, 'msg': str(e)[:200]})
+    return out
